@@ -12,7 +12,7 @@ _A07 = [
     "only dispenso's own futex() wrapper goes through the interposed syscall(); the harness itself never uses timed futex waits",
 ]
 _A09 = [
-    "wake mode uses a 30-60 min backstop so that completion cannot come from it; poll mode keeps a 100-200 us poll period (there the timed sleep is the design, not a backstop)",
+    "wake mode uses a 30-60 min backstop so that completion cannot come from it; poll mode is run both with its 100-200 us poll period (not judged for hangs: there the timed sleep is the design) and with a one-hour period (mode pollL, judged like wake mode: since wakeAll() always issues the futex wake, stopping parked pollers must not wait for their period)",
     "the pool is used from one thread only; no call races the destructor, resize or setSignalingWake",
     "thread census through /proc/self/task: count of live non-harness threads, plus identity of the stopped generation by (tid, thread start time) so that a recycled tid cannot produce a verdict",
 ]
@@ -39,14 +39,18 @@ PROPS = {
     "C09": {
         "level": "exploration",
         "technique": "runtime monitoring: lifecycles (destructor / resize / setSignalingWake) issued while workers are parked, spinning, busy, delayed at the park sites or held in a scripted gate at each park site; state-based hang verdict (caller asleep in join, surviving workers parked in a timed futex wait with a 30-60 min timeout, wait exits stable) plus the runtime watchdog; thread census after return; repeated under TSan",
-        "level_text": "Each case builds a pool of 0..17 threads in wake mode (one-hour backstop) or poll mode, gives the worker generation a history (none, ring-path bulk, single force-queued tasks), drives the workers to a phase (parked, spinning, busy, park-site delays + futex pre-wait delays + spurious futex returns, or a gate that holds one worker before enterSleep / after enterSleep / before the wait), then runs the operation under test on the main thread and afterwards destroys the surviving pool. The call must return, and afterwards the number of live non-harness threads must equal the size of the new configuration.",
+        "level_text": "Each case builds a pool of 0..17 threads in wake mode (one-hour backstop) or poll mode, gives the worker generation a history (none, ring-path bulk, single force-queued tasks), drives the workers to a phase (parked, spinning, busy, park-site delays + futex pre-wait delays + spurious futex returns, or a gate that holds one worker before enterSleep / after enterSleep / before the wait), then runs the operation under test on the main thread and afterwards destroys the surviving pool. The call must return, and afterwards the number of live non-harness threads must equal the size of the new configuration and no thread of the stopped generation (tid + start time) may be alive. Poll mode with a one-hour period (pollL) goes through the same operations and phases (phases are set up on the way to the first park, because nothing wakes a poller for a task). setSignalingWake(same flag, other duration) on parked long-period workers (1 h -> 200 us, 1 h -> 1 h - 1 s) is additionally followed by a force-queued task that the new configuration must start (state-based stranded verdict).",
         "level_note": "The phase present at call time is recorded from the futex interposer and the guarded accessors (at-call:* classes). The gate is opened by the monitor thread after the stopper passed its stop loop (or right at the start of the call), with a random delay.",
         "design_ref": "DESIGN.md §4 C09",
         "rule": "evaluations = operations under test (the operation of the case plus the final destructor of a surviving pool); non-trivial = the stopped generation had at least one worker thread; distinct by case spec",
         "required_classes": ["op:dtor", "op:resize-up", "op:resize-down", "op:resize-0", "op:ssw-same", "op:ssw-toggle", "mode:wake", "mode:poll",
                              "phase:parked", "phase:spinning", "phase:busy", "phase:parking", "gate-reached:gate8", "gate-reached:gate9",
                              "gate-reached:gate10", "hist:fresh", "hist:bulk", "hist:claimed", "n0", "n1", "multi-group",
-                             "at-call:parked", "at-call:spinning", "at-call:busy"],
+                             "at-call:parked", "at-call:spinning", "at-call:busy",
+                             "mode:pollL", "pollL:parked", "pollL:spinning", "pollL:busy", "pollL:parking", "pollL:gate-reached:gate8",
+                             "pollL:gate-reached:gate10", "pollL:op:dtor", "pollL:op:resize", "pollL:op:ssw",
+                             "ssw-parked:wake:long-short", "ssw-parked:wake:long-long", "ssw-parked:poll:long-short", "ssw-parked:poll:long-long",
+                             "followup:wake", "followup:poll"],
         "assumptions": _A09,
         "runs": {
             "quick": [{"config": "plain", "shards": 16, "args": {"n": 1200}}, {"config": "tsan", "shards": 16, "args": {"n": 160, "nmax": 9}}],
